@@ -53,10 +53,15 @@ def one_run(args):
 
 def run(pid, tier, theorems, imports, targets, own_tags):
     chk = Check(pid, tier)
-    lean_stage(chk, theorems, imports, list(targets))
+    lean_stage(chk, theorems, imports, list(targets) + ['conccheck'])
+    conc_part(chk, tier, Rng(chk.seed).fork(pid), own_tags)
+    return chk.finish()
+
+
+def conc_part(chk, tier, rng, own_tags, scale=1.0):
+    pid = chk.pid
     cbin = conc_bin()
-    rng = Rng(chk.seed).fork(pid)
-    n = 60 if tier == 'quick' else 3000
+    n = int((60 if tier == 'quick' else 3000) * scale)
     jobs = []
     for i in range(n):
         nw = rng.range(2, 4 if tier == 'quick' else 8)
@@ -70,10 +75,14 @@ def run(pid, tier, theorems, imports, targets, own_tags):
     for i in range(n // 3):
         jobs.append((cbin, [rng.below(1 << 30), rng.below(1 << 30), rng.below(2), rng.range(2, 3), rng.range(1, 2), rng.range(2, 5), 40000, rng.choice([13, 29, 31])]))
     # group commit at its size limit: several writers queued at once, small batches mixed with ones above the 128 KiB allowance
-    for i in range(40 if tier == 'quick' else 1500):
+    for i in range(int((40 if tier == 'quick' else 1500) * scale)):
         jobs.append((cbin, [rng.below(1 << 30), rng.below(1 << 30), rng.below(2), rng.range(4, 6), rng.range(0, 1), rng.range(6, 14), 300, rng.choice([32, 33, 36, 44])]))
+    # several threads asleep on background_work_finished at once: a stalled head writer (64 KiB write buffer, 40 KB values) and
+    # the manual-compaction thread, later close
+    for i in range(int((60 if tier == 'quick' else 1500) * scale)):
+        jobs.append((cbin, [rng.below(1 << 30), rng.below(1 << 30), rng.below(2), rng.range(3, 5), rng.range(0, 1), rng.range(6, 14), 40000, rng.choice([2, 3, 15, 31])]))
     # many short runs of batch writers against snapshot readers: the window between sequence publication and memtable insert
-    for i in range(240 if tier == 'quick' else 6000):
+    for i in range(int((240 if tier == 'quick' else 6000) * scale)):
         jobs.append((cbin, [rng.below(1 << 30), rng.below(1 << 30), rng.below(2), 2, 3, 8, 200, 13]))
     results = []
     with cf.ThreadPoolExecutor(vlib.NPROC) as ex:
@@ -114,7 +123,6 @@ def run(pid, tier, theorems, imports, targets, own_tags):
     chk.assumptions += ['one thread runs at a time (sequentially consistent interleavings at port-call granularity); preemption inside a critical section or inside a lock-free phase is not explored: '
                         'that those phases touch only what the model says is the discipline of C10',
                         'no spurious condition-variable wake-ups (the code re-checks its predicates in loops)']
-    return chk.finish()
 
 
 def replay(pid, path):
